@@ -192,6 +192,28 @@ def run(chk, replay=None):
             if ci != want:
                 chk.violation({"class": "consistency", "what": "witness declared %s (documented %s): expected %s, got %s" % (name, d, want, x[:80])},
                               {"cmd": "core", "line": ln, "implementation": x, "expected": want, "broken": "a witness declared through a builtin alias must take exactly the values of the alias's documented type"})
+    # the witness node of a single-witness program: its value is the supplied value shrunk to the node's type, exactly as the
+    # model of named.rs prune_value computes it (C05_prune_value_is_prune, C05_prune_typed_total); the node type is a shrunk
+    # form of the declared layout (hypothesis of C05_pruned_witnesses_typed)
+    single = [g for g in corelib.partial_witness_programs(chk, 150 if quick else 3000, "pwnode") if len(g.witnesses) == 1]
+    wl = ["(witnodes %s () %s)" % (quote(g.text), corelib.bindings_sx(g.extra_assign[0])) for g in single]
+    for g, ln, x in zip(single, wl, impl("core", wl)):
+        if not x.startswith("(ok"):
+            chk.count("witness-node.%s" % x.split(" ")[0].strip("("))
+            continue
+        nodes = parse_sx(x)[1:]
+        if len(nodes) != 1:
+            chk.count("witness-node.count%d" % len(nodes))
+            continue
+        ty, val = nodes[0]
+        v = g.extra_assign[0][0][1]
+        m = model("layout", ["(prune %s %s)" % (gen.val_sx(v), sx(ty))], shards=1)[0]
+        chk.case(ln, sample={"program": g.text[:160], "supplied": gen.val_sx(v)[:80], "node_type": sx(ty)[:80], "node_value": sx(val)[:80]})
+        chk.count("witness-node." + ("same" if m == "(some %s) (shrinks true)" % sx(val) else "different"))
+        if m != "(some %s) (shrinks true)" % sx(val):
+            chk.violation({"class": "delivery", "what": "witness node holds %s, model of the shrink gives %s || %s" % (sx(val)[:80], m[:100], g.text[:160])},
+                          {"cmd": "core", "line": ln, "program": g.text, "witness": corelib.bindings_sx(g.extra_assign[0]), "node_type": sx(ty), "implementation": sx(val), "model": m,
+                           "broken": "the value stored in the witness node is not the supplied value shrunk to the node's type, or the node's type is not a shrunk form of the declared layout"})
     # partially inspected witnesses: the value that satisfy puts into the node must be of the node's (smaller) type — checked
     # through the encoding round trip and the run against the source semantics
     pw = corelib.check_terms(chk, corelib.partial_witness_programs(chk, 60 if quick else 1500, "pw5"), dbgs=(0,))
